@@ -17,7 +17,32 @@ import (
 
 var valueDict = []string{"0", "1", "-1", "+5", "007", "9223372036854775807", "9223372036854775808", "-9223372036854775808", "-9223372036854775809",
 	"18446744073709551615", "18446744073709551616", "1e3", "1.5", "NaN", "Inf", "-Inf", "+Inf", "nan", "0x10", "1_000", "", "true", "false", "T", "F", "TRUE", "t", "yes",
-	"\xff", "١٢٣", "  1", "1 ", "3.4028235e+39", "1e400", "0b101", "abc", "-0", ".5", "5.", "1e-400", "0x1p-2", "infinity", "True", "fAlse"}
+	"\xff", "١٢٣", "  1", "1 ", "3.4028235e+39", "1e400", "0b101", "abc", "-0", ".5", "5.", "1e-400", "0x1p-2", "infinity", "True", "fAlse",
+	"-", "+", "+-1", "--1", "-+1", "1-", "1+", "999999999999999999", "1000000000000000000", "-999999999999999999", "+999999999999999999", "-1000000000000000000",
+	"0000000000000000000001", "-00", "+0", "\uff11\uff12", "1\x00", "0_1", "0o17", "-0x8000000000000000", "+.5", "-.", ".", "e5", "1e", "0e0", "1E+2"}
+
+// genValue: mostly the dictionary, otherwise number-like text of any length up to 21 (sign characters
+// alone, signs in the middle, 18/19/20-digit values around the int64 and uint64 limits)
+func genValue(r *Rng) string {
+	if r.Pct(70) {
+		return pick(r, valueDict)
+	}
+	n := r.Intn(22)
+	b := make([]byte, 0, n)
+	for i := 0; i < n; i++ {
+		switch k := r.Intn(100); {
+		case k < 8 || (i == 0 && k < 40):
+			b = append(b, "+-"[r.Intn(2)])
+		case k < 12:
+			b = append(b, "._eExXb "[r.Intn(8)])
+		case k < 30:
+			b = append(b, "09"[r.Intn(2)])
+		default:
+			b = append(b, byte('0'+r.Intn(10)))
+		}
+	}
+	return string(b)
+}
 var keyDict = []string{"id", "page", "", "a", "b", "k\x00", "名", "id2", "x-y", "ID"}
 
 type fakeNode struct{}
@@ -45,7 +70,7 @@ func genC20(r *Rng, idx int, tier string) *World {
 				live = append(live, slot)
 				slot++
 			case k < 50:
-				ops = append(ops, Op{T: t, K: "set", N: pick(r, live), Name: pick(r, keyDict), Args: []string{pick(r, valueDict)}})
+				ops = append(ops, Op{T: t, K: "set", N: pick(r, live), Name: pick(r, keyDict), Args: []string{genValue(r)}})
 			case k < 60:
 				ops = append(ops, Op{T: t, K: "del", N: pick(r, live), Name: pick(r, keyDict)})
 			case k < 66:
